@@ -42,13 +42,14 @@ def insertOuts (g : DiGraph) (preds : Option (List Nat)) : List Nat :=
   | none => g.outputNodes
   | some ps => ps
 
-/-- `WorkflowBuilder.insert_workflow(other, predecessors)`.  Returns the new
-    graph of the builder in both outcomes: on refusal `self._g` has ALREADY
-    been replaced by the composition (the `raise` comes after the assignment). -/
+/-- `WorkflowBuilder.insert_workflow(other, predecessors)` (after fix f697869):
+    the connecting edges are computed FIRST; on refusal (`ValueError`) the builder
+    is untouched, otherwise `self._g = nx.compose(self._g, other._g)` followed by
+    `add_edge` for every computed edge.  Returns the builder's graph afterwards. -/
 def insertWorkflow (g other : DiGraph) (preds : Option (List Nat)) : DiGraph × Option Err :=
   match connectEdges (insertOuts g preds) other.inputNodes with
   | .ok es => ((g.compose other).addEdgesFrom es, none)
-  | .error e => (g.compose other, some e)
+  | .error e => (g, some e)
 
 /-- `WorkflowBuilder.__add__` / `Workflow.__add__` -/
 def plus (g h : DiGraph) : DiGraph := g.compose h
